@@ -142,7 +142,7 @@ Section Legacy.
     - replace (Z.max 1 len) with len by lia. exact (bval_range len dw Rlen Rdw).
   Qed.
 
-  Lemma bnum_word signed :
+  Lemma bnum_word (signed : bool) :
     (if signed then w_signextend (w_sub len (wrap 1)) (w_shr (8 * (32 - len)) dw) else w_shr (8 * (32 - len)) dw)
     = wrap (bnum_val signed).
   Proof.
@@ -169,10 +169,9 @@ Proof. intros Hm Hv. unfold sbytes. replace (v <? 2 ^ (8 * m - 1)) with true by 
 Theorem bconvert_exact N Tout (is_str : bool) mem bp len dw :
   bconv_allowed is_str N Tout = true -> cty_ok Tout -> 0 <= len <= N ->
   mem bp = len -> mem (w_add bp (wrap 32)) = dw -> uword dw ->
-  (len = 0 -> signed_target Tout = true -> dw < HALF) ->
   mleval mem [("b"%string, bp)] (m_bconvert N Tout) = c_enc_out Tout (conv_spec (blen_ty len) Tout (bval len dw)).
 Proof.
-  intros Al OkO Hl Hlen Hdw Rdw Clean. pose proof W_val. pose proof HALF_val.
+  intros Al OkO Hl Hlen Hdw Rdw. pose proof W_val. pose proof HALF_val.
   unfold bconv_allowed in Al. apply andb_true_iff in Al. destruct Al as [HN Al]. assert (RN : 1 <= N <= 32) by lia.
   assert (Rlen : 0 <= len <= 32) by lia.
   set (e := [("b"%string, bp)]).
@@ -184,13 +183,8 @@ Proof.
   { destruct (Z.eq_dec len 0) as [E0|N0]; [unfold v; rewrite E0, bval_0 by exact Rdw; split; [lia | apply Z.pow_pos_nonneg; lia]
                                           | unfold l'; replace (Z.max 1 len) with len by lia; exact Rv]. }
   (* the number the head computes, in terms of the bytes<l'> reading of v *)
-  assert (NUM : forall (sg : bool), (sg = true -> len = 0 -> dw < HALF) ->
-            mleval mem e (m_bnum sg) = Val (wrap (if sg then sbytes l' v else v))).
-  { intros sg C. rewrite (bnum_eval mem bp len dw Hlen Hdw Rlen Rdw sg e Lb). unfold bnum_val. f_equal. f_equal.
-    destruct sg; [|reflexivity]. destruct (Z.eqb_spec len 0) as [E0|N0].
-    - specialize (C eq_refl E0). replace (dw <? HALF) with true by lia. unfold v, l'. rewrite E0, bval_0 by exact Rdw.
-      reflexivity.
-    - unfold l'. replace (Z.max 1 len) with len by lia. reflexivity. }
+  assert (NUM : forall (sg : bool), mleval mem e (m_bnum sg) = Val (wrap (if sg then sbytes l' v else v))).
+  { intros sg. exact (bnum_eval mem bp len dw Hlen Hdw Rlen Rdw sg e Lb). }
   pose proof (sbytes_range l' v Hl' ltac:(lia)) as SR. pose proof (Hb_pos l' ltac:(lia)). pose proof (Hb_le_HALF l' Hl').
   assert (HBl : 2 ^ (8 * l') = 2 * Hb l') by (apply pow8k; lia).
   assert (LN : l' <= N) by (unfold l'; lia).
@@ -200,9 +194,9 @@ Proof.
     cbn in OkO. destruct is_str; [discriminate Al|].
     destruct (ndec T) eqn:D.
     + (* decimal: a bit cast of the two's-complement reading *)
-      pose proof (dec_is_decimal_t T OkO D). subst T. cbn [nsigned decimal_t] in Clean.
+      pose proof (dec_is_decimal_t T OkO D). subst T.
       change (c_chk (CNum decimal_t) (sbytes l' v)) with (chk decimal_t (sbytes l' v)). change (c_enc_out (CNum decimal_t)) with enc_out.
-      specialize (NUM true ltac:(intros _ E0; apply Clean; [exact E0 | reflexivity])).
+      specialize (NUM true).
       destruct (Z.ltb_spec 168 (8 * N)).
       * unfold m_bclamp. cbn [mleval]. rewrite NUM. cbn [mleval]. change (168 / 8) with 21.
         apply (clamp_of_exact _ _ 21 true true); [lia | reflexivity |]. cbn. unfold sword, MINS, MAXS. lia.
@@ -211,7 +205,7 @@ Proof.
     + (* integers *)
       change (c_chk (CNum T) (if nsigned T then sbytes l' v else v)) with (chk T (if nsigned T then sbytes l' v else v)).
       change (c_enc_out (CNum T)) with enc_out.
-      specialize (NUM (nsigned T) ltac:(intros S E0; apply Clean; assumption)).
+      specialize (NUM (nsigned T)).
       set (r := if nsigned T then sbytes l' v else v) in *.
       destruct T as [k s d]. destruct OkO as [Hk _]. cbn [nbytes nsigned ndec] in *. subst d. unfold nbits. cbn [nbytes nsigned].
       pose proof (Hb_pos k ltac:(lia)).
@@ -227,11 +221,11 @@ Proof.
         pose proof (Hb_mono l' k ltac:(lia)).
         destruct s; [rewrite ty_lo_s, ty_hi_s | rewrite ty_lo_u, ty_hi_u by lia]; lia.
   - (* bool *)
-    specialize (NUM false ltac:(discriminate)). cbn [mleval]. rewrite NUM. cbn [c_enc_out c_enc]. f_equal.
+    specialize (NUM false). cbn [mleval]. rewrite NUM. cbn [c_enc_out c_enc]. f_equal.
     cbn [ev1]. unfold w_iszero at 2. rewrite w_iszero_b2z. pose proof (pow2_le_W (8 * l') ltac:(lia)).
     rewrite wrap_eqb0 by lia. destruct (v =? 0); reflexivity.
   - (* address *)
-    destruct is_str; [discriminate Al|]. specialize (NUM false ltac:(discriminate)).
+    destruct is_str; [discriminate Al|]. specialize (NUM false).
     assert (P160 : 2 ^ 160 = 1461501637330902918203684832716283019655932542976) by reflexivity.
     unfold c_chk, c_in_rangeb. cbn [c_lo c_hi c_enc_out c_enc]. pose proof (pow2_le_W (8 * l') ltac:(lia)).
     destruct (Z.ltb_spec 160 (8 * N)).
@@ -257,15 +251,6 @@ Proof.
   - destruct is_str; discriminate Al.
 Qed.
 
-(* the defect: an empty bytestring whose (stale) data word has the top bit set converts to -1 for signed targets *)
-Theorem bytes_convert_empty_signed_refuted :
-  exists mem bp, mem bp = 0 /\ uword (mem (w_add bp (wrap 32))) /\
-    mleval mem [("b"%string, bp)] (m_bconvert 32 (CNum (Build_nty 32 true false))) = Val (wrap (-1)) /\
-    conv_spec (blen_ty 0) (CNum (Build_nty 32 true false)) 0 = Val 0.
-Proof.
-  exists (fun a => if a =? 64 then 0 else MAXU), 64. repeat split; vm_compute; try reflexivity; discriminate.
-Qed.
-
 (* ---------------- Venom ---------------- *)
 Lemma mvsl_app mem l1 : forall e l2,
   mvsl mem e (l1 ++ l2) = match mvsl mem e l1 with VOk e' => mvsl mem e' l2 | r => r end.
@@ -273,34 +258,51 @@ Proof. induction l1 as [|i l IH]; intros e l2; [reflexivity|]. cbn [app mvsl]. d
 Lemma mvsl_MV mem l : forall e, mvsl mem e (map MV l) = vsl e l.
 Proof. induction l as [|i l IH]; intros e; [reflexivity|]. cbn [map mvsl mvstep vsl]. destruct (vstep e i); try reflexivity. apply IH. Qed.
 
-Definition benv8 (bp len dw num : Z) : env :=
-  [("%8"%string, num); ("%7"%string, 8 * (32 - len)); ("%6"%string, w_sub (wrap 32) len); ("%5"%string, dw);
+Definition benv7 (bp len dw : Z) : env :=
+  [("%7"%string, 8 * (32 - len)); ("%6"%string, w_sub (wrap 32) len); ("%5"%string, dw);
    ("%4"%string, w_add bp (wrap 32)); ("%3"%string, len); ("%1"%string, bp)].
+Definition benv_u (bp len dw : Z) : env := ("%8"%string, wrap (bnum_val len dw false)) :: benv7 bp len dw.
+Definition benv_si (bp len dw : Z) : env :=
+  ("%10"%string, wrap (bnum_val len dw true)) :: ("%9"%string, w_sub len (wrap 1)) :: ("%8"%string, w_shr (8 * (32 - len)) dw)
+    :: benv7 bp len dw.
+Definition benv_sd (bp len dw : Z) : env :=
+  ("%10"%string, wrap (bnum_val len dw true)) :: ("%9"%string, w_shr (8 * (32 - len)) dw) :: ("%8"%string, w_sub len (wrap 1))
+    :: benv7 bp len dw.
 
-Lemma vbhead_eval mem bp len dw sg : mem bp = len -> mem (w_add bp (wrap 32)) = dw -> 0 <= len <= 32 -> uword dw ->
-  mvsl mem [("%1"%string, bp)] (v_bhead sg) = VOk (benv8 bp len dw (wrap (bnum_val len dw sg))).
-Proof.
-  intros Hlen Hdw Rlen Rdw. unfold v_bhead, benv8.
-  cbn [mvsl mvstep vstep vval lookup String.eqb Ascii.eqb Bool.eqb px ev2]. rewrite Hlen. cbn [mvsl mvstep vstep vval lookup String.eqb Ascii.eqb Bool.eqb ev2].
-  rewrite Hdw. cbn [mvsl mvstep vstep vval lookup String.eqb Ascii.eqb Bool.eqb ev2]. rewrite shift_word' by exact Rlen.
-  pose proof W_val. unfold bnum_val.
-  destruct sg; cbn [ev2]; do 3 f_equal.
-  - destruct (Z.eqb_spec len 0) as [->|N].
-    + change (8 * (32 - 0)) with 256. rewrite sar_256 by exact Rdw. destruct (dw <? HALF); reflexivity.
-    + apply sar_bval; [lia | exact Rdw].
-  - rewrite shr_bval by assumption. pose proof (bval_range len dw Rlen Rdw). pose proof (pow2_le_W (8 * len) ltac:(lia)).
-    symmetry. apply wrap_small. lia.
-Qed.
+Ltac bhstep := cbn [mvsl mvstep vstep vval lookup String.eqb Ascii.eqb Bool.eqb px ev2 app v_bload].
 
-Ltac b8step := cbn [vsl vstep vval lookup benv8 String.eqb Ascii.eqb Bool.eqb ev1 ev2 v_clamp pn Nat.add nsigned nbytes mvsl mvstep].
+Section VHead.
+  Variables (mem : Z -> Z) (bp len dw : Z).
+  Hypothesis Hlen : mem bp = len.
+  Hypothesis Hdw : mem (w_add bp (wrap 32)) = dw.
+  Hypothesis Rlen : 0 <= len <= 32.
+  Hypothesis Rdw : uword dw.
+
+  Lemma vbhead_u_eval : mvsl mem [("%1"%string, bp)] v_bhead_u = VOk (benv_u bp len dw).
+  Proof.
+    unfold v_bhead_u, benv_u, benv7. bhstep. rewrite Hlen. bhstep. rewrite Hdw. bhstep. rewrite shift_word' by exact Rlen.
+    rewrite <- (bnum_word len dw Rlen Rdw false). reflexivity.
+  Qed.
+  Lemma vbhead_si_eval : mvsl mem [("%1"%string, bp)] v_bhead_si = VOk (benv_si bp len dw).
+  Proof.
+    unfold v_bhead_si, benv_si, benv7. bhstep. rewrite Hlen. bhstep. rewrite Hdw. bhstep. rewrite shift_word' by exact Rlen.
+    rewrite <- (bnum_word len dw Rlen Rdw true). reflexivity.
+  Qed.
+  Lemma vbhead_sd_eval : mvsl mem [("%1"%string, bp)] v_bhead_sd = VOk (benv_sd bp len dw).
+  Proof.
+    unfold v_bhead_sd, benv_sd, benv7. bhstep. rewrite Hlen. bhstep. rewrite Hdw. bhstep. rewrite shift_word' by exact Rlen.
+    rewrite <- (bnum_word len dw Rlen Rdw true). reflexivity.
+  Qed.
+End VHead.
+
+Ltac b8step := cbn [vsl vstep vval lookup benv7 benv_u benv_si benv_sd String.eqb Ascii.eqb Bool.eqb ev1 ev2 v_clamp pn Nat.add nsigned nbytes mvsl mvstep].
 
 Theorem vbconvert_exact N Tout (is_str : bool) mem bp len dw :
   bconv_allowed is_str N Tout = true -> cty_ok Tout -> 0 <= len <= N ->
   mem bp = len -> mem (w_add bp (wrap 32)) = dw -> uword dw ->
-  (len = 0 -> signed_target Tout = true -> dw < HALF) ->
   mvrun mem [("%1"%string, bp)] (v_bconvert N Tout) = c_enc_out Tout (conv_spec (blen_ty len) Tout (bval len dw)).
 Proof.
-  intros Al OkO Hl Hlen Hdw Rdw Clean. pose proof W_val. pose proof HALF_val.
+  intros Al OkO Hl Hlen Hdw Rdw. pose proof W_val. pose proof HALF_val.
   unfold bconv_allowed in Al. apply andb_true_iff in Al. destruct Al as [HN Al]. assert (RN : 1 <= N <= 32) by lia.
   assert (Rlen : 0 <= len <= 32) by lia.
   pose proof (bval_range len dw Rlen Rdw) as Rv.
@@ -309,11 +311,7 @@ Proof.
   assert (Rv' : 0 <= v < 2 ^ (8 * l')).
   { destruct (Z.eq_dec len 0) as [E0|N0]; [unfold v; rewrite E0, bval_0 by exact Rdw; split; [lia | apply Z.pow_pos_nonneg; lia]
                                           | unfold l'; replace (Z.max 1 len) with len by lia; exact Rv]. }
-  assert (NUM : forall (sg : bool), (sg = true -> len = 0 -> dw < HALF) ->
-            bnum_val len dw sg = (if sg then sbytes l' v else v)).
-  { intros sg C. unfold bnum_val. destruct sg; [|reflexivity]. destruct (Z.eqb_spec len 0) as [E0|N0].
-    - specialize (C eq_refl E0). replace (dw <? HALF) with true by lia. unfold v, l'. rewrite E0, bval_0 by exact Rdw. reflexivity.
-    - unfold l'. replace (Z.max 1 len) with len by lia. reflexivity. }
+  assert (NUM : forall (sg : bool), bnum_val len dw sg = (if sg then sbytes l' v else v)) by (intros [|]; reflexivity).
   pose proof (sbytes_range l' v Hl' ltac:(lia)) as SR. pose proof (Hb_pos l' ltac:(lia)). pose proof (Hb_le_HALF l' Hl').
   assert (HBl : 2 ^ (8 * l') = 2 * Hb l') by (apply pow8k; lia).
   assert (LN : l' <= N) by (unfold l'; lia).
@@ -321,10 +319,9 @@ Proof.
   destruct Tout as [T| | |M|n]; cbn [v_bconvert signed_target fst snd] in *.
   - cbn in OkO. destruct is_str; [discriminate Al|].
     destruct (ndec T) eqn:D.
-    + pose proof (dec_is_decimal_t T OkO D). subst T. cbn [nsigned decimal_t] in Clean.
+    + pose proof (dec_is_decimal_t T OkO D). subst T.
       change (c_chk (CNum decimal_t) (sbytes l' v)) with (chk decimal_t (sbytes l' v)). change (c_enc_out (CNum decimal_t)) with enc_out.
-      cbn [fst snd]. rewrite mvsl_app, (vbhead_eval mem bp len dw true Hlen Hdw Rlen Rdw).
-      rewrite (NUM true ltac:(intros _ E0; apply Clean; [exact E0 | reflexivity])).
+      cbn [fst snd]. rewrite mvsl_app, (vbhead_sd_eval mem bp len dw Hlen Hdw Rlen Rdw). unfold benv_sd. rewrite (NUM true).
       assert (Fr : sword (sbytes l' v)) by (unfold sword, MINS, MAXS; lia).
       rewrite enc_out_chk.
       destruct (Z.ltb_spec 168 (8 * N)).
@@ -334,28 +331,31 @@ Proof.
       * b8step. replace (in_rangeb _ _) with true; [reflexivity|]. symmetry. apply in_rangeb_iff.
         unfold in_range. destruct dec_bounds as [-> ->]. pose proof (Hb_mono l' 21 ltac:(lia)). rewrite Hb_21 in *. lia.
     + change (c_chk (CNum T) (if nsigned T then sbytes l' v else v)) with (chk T (if nsigned T then sbytes l' v else v)).
-      change (c_enc_out (CNum T)) with enc_out. cbn [fst snd].
-      rewrite mvsl_app, (vbhead_eval mem bp len dw (nsigned T) Hlen Hdw Rlen Rdw).
-      rewrite (NUM (nsigned T) ltac:(intros S E0; apply Clean; assumption)).
-      set (r := if nsigned T then sbytes l' v else v) in *.
+      change (c_enc_out (CNum T)) with enc_out.
       destruct T as [k s d]. destruct OkO as [Hk _]. cbn [nbytes nsigned ndec] in *. subst d. unfold nbits. cbn [nbytes nsigned].
       pose proof (Hb_pos k ltac:(lia)). rewrite enc_out_chk.
-      assert (Fr : fits256 s r) by (unfold r; destruct s; cbn; unfold sword, uword, MINS, MAXS; lia).
-      destruct (Z.ltb_spec (8 * k) (8 * N)).
-      * rewrite mvsl_MV. destruct s; b8step.
-        -- rewrite (vclamp_s_val k false (wrap r)) by (try lia; apply wrap_range).
+      destruct s; cbn [fst snd].
+      * set (r := sbytes l' v) in *.
+        assert (Fr : sword r) by (unfold sword, MINS, MAXS; lia).
+        rewrite mvsl_app, (vbhead_si_eval mem bp len dw Hlen Hdw Rlen Rdw). unfold benv_si. rewrite (NUM true). fold r.
+        destruct (Z.ltb_spec (8 * k) (8 * N)).
+        -- rewrite mvsl_MV. b8step. rewrite (vclamp_s_val k false (wrap r)) by (try lia; apply wrap_range).
            rewrite b2z_eq0, (ts_wrap _ Fr). destruct (in_rangeb _ r); reflexivity.
-        -- rewrite (vclamp_u_val k false (wrap r)) by (try lia; apply wrap_range).
-           rewrite b2z_eq0, (wrap_small r) by exact Fr. destruct (in_rangeb _ r); reflexivity.
-      * b8step. replace (in_rangeb _ r) with true; [reflexivity|]. symmetry. apply in_rangeb_iff.
-        unfold in_range, r. pose proof (Hb_mono l' k ltac:(lia)).
-        destruct s; [rewrite ty_lo_s, ty_hi_s | rewrite ty_lo_u, ty_hi_u by lia]; lia.
-  - rewrite mvsl_app, (vbhead_eval mem bp len dw false Hlen Hdw Rlen Rdw), (NUM false ltac:(discriminate)).
+        -- b8step. replace (in_rangeb _ r) with true; [reflexivity|]. symmetry. apply in_rangeb_iff.
+           unfold in_range. pose proof (Hb_mono l' k ltac:(lia)). rewrite ty_lo_s, ty_hi_s. lia.
+      * rewrite mvsl_app, (vbhead_u_eval mem bp len dw Hlen Hdw Rlen Rdw). unfold benv_u. rewrite (NUM false).
+        assert (Fr : uword v) by (unfold uword; lia).
+        destruct (Z.ltb_spec (8 * k) (8 * N)).
+        -- rewrite mvsl_MV. b8step. rewrite (vclamp_u_val k false (wrap v)) by (try lia; apply wrap_range).
+           rewrite b2z_eq0, (wrap_small v) by exact Fr. destruct (in_rangeb _ v); reflexivity.
+        -- b8step. replace (in_rangeb _ v) with true; [reflexivity|]. symmetry. apply in_rangeb_iff.
+           unfold in_range. pose proof (Hb_mono l' k ltac:(lia)). rewrite ty_lo_u, ty_hi_u by lia. lia.
+  - rewrite mvsl_app, (vbhead_u_eval mem bp len dw Hlen Hdw Rlen Rdw). unfold benv_u. rewrite (NUM false).
     b8step. cbn [c_enc_out c_enc]. f_equal.
     unfold w_iszero at 2. rewrite w_iszero_b2z. pose proof (pow2_le_W (8 * l') ltac:(lia)).
     rewrite wrap_eqb0 by lia. destruct (v =? 0); reflexivity.
   - destruct is_str; [discriminate Al|].
-    rewrite mvsl_app, (vbhead_eval mem bp len dw false Hlen Hdw Rlen Rdw), (NUM false ltac:(discriminate)).
+    rewrite mvsl_app, (vbhead_u_eval mem bp len dw Hlen Hdw Rlen Rdw). unfold benv_u. rewrite (NUM false).
     assert (P160 : 2 ^ 160 = 1461501637330902918203684832716283019655932542976) by reflexivity.
     unfold c_chk, c_in_rangeb. cbn [c_lo c_hi c_enc_out c_enc]. pose proof (pow2_le_W (8 * l') ltac:(lia)).
     destruct (Z.ltb_spec 160 (8 * N)).
@@ -367,7 +367,7 @@ Proof.
       assert (2 ^ 160 = 2 * 2 ^ 159) by reflexivity. bsolve; cbn [c_enc_out c_enc]; reflexivity.
   - cbn in OkO. destruct is_str; [discriminate Al|]. assert (NM : N <= M) by lia.
     replace (l' <=? M) with true by lia. cbn [c_enc_out c_enc].
-    rewrite mvsl_app, (vbhead_eval mem bp len dw false Hlen Hdw Rlen Rdw), (NUM false ltac:(discriminate)).
+    rewrite mvsl_app, (vbhead_u_eval mem bp len dw Hlen Hdw Rlen Rdw). unfold benv_u. rewrite (NUM false).
     b8step. f_equal. pose proof (pow2_le_W (8 * l') ltac:(lia)). rewrite wrap_small by lia.
     unfold w_shl. destruct (Z.ltb_spec (8 * (32 - len)) 256).
     + assert (len <> 0) by lia. unfold l' in *. replace (Z.max 1 len) with len in * by lia.
